@@ -247,7 +247,11 @@ func c09NamePositions(r *Run, m *ServerModel) {
 				baseExpr = unparen(ix.X)
 			}
 			if v, ok := objOf(info, baseExpr).(*types.Var); ok && paramIndex(root, info, v) >= 0 {
-				if lp, ok := loopChecked(m, root, v); ok && lp < pos {
+				at := b.Site.rootPos()
+				if b.Outer != nil {
+					at = b.Outer.rootPos()
+				}
+				if lp, ok := loopChecked(m, root, v); ok && lp < at {
 					r.ok("r2", key, pos, "element(s) of parameter %s, every element of which is checked by the leading loop of %s", v.Name(), root.Key)
 					continue
 				}
